@@ -8,10 +8,12 @@ PROP = {'id': 'C03',
                'HpcSubmitter._update_completed_jobs',
                'HpcSubmitter._cancel_job',
                'JobQueue._check_completions',
-               'HpcSubmitter._make_batch'],
+               'HpcSubmitter._make_batch',
+               'ResultsSummary.get_results_by_type',
+               'ResultsSummary.get_successful_result'],
  'native': ['HpcSubmitter.run', 'JobSubmitter._handle_completion', 'JobQueue._check_completions', 'JobQueue.process_queue'],
  'lemmas': ['lemma_c03_unique_classification'],
- 'records': ['Result', 'JobSubmitter'],
+ 'records': ['Result', 'JobSubmitter', 'ResultsSummary'],
  'min_obligations': 600,
  'assumptions': ['the completeness premise (every batch runs to its end => every job gets a result) is C05/C12 territory and only checked by the bounded '
                  'simulator here',
